@@ -2,7 +2,8 @@
    ownership/separation invariant, and writes only to new cells or to the target's private cells. *)
 From Coq Require Import ZArith List Bool Arith Lia PArith FMapPositive.
 From LW Require Import Base.Sx Base.Num Base.Sums Base.Mat Model.Circuit Model.World Model.Rewrite Model.Heap
-     Proofs.WorldP Proofs.HeapP Proofs.HeapP2 Proofs.HeapFlat Proofs.HeapP3 Proofs.HeapP4 Proofs.HeapP5 Proofs.HeapP6.
+     Proofs.WorldP Proofs.HeapP Proofs.HeapP2 Proofs.HeapFlat Proofs.HeapP3 Proofs.HeapP4.
+From LW Require Import Proofs.HeapP5 Proofs.HeapP6.
 Import ListNotations.
 
 Section HeapMain.
@@ -400,5 +401,25 @@ Section HeapMain.
       destruct (alloc6_post h l _ _ _ _ _ _ _ _ Hw Bl E) as (Q1 & Q2 & Q3 & Q4 & Q5 & Q6 & Q7 & Q8 & Q9) end.
     intros _. cbn [fst hw_pool hw_heap]. exists ca, cb, c'.
     split; [reflexivity|]. split; [reflexivity|]. split; [apply pget_pset_same|]. split; [exact Q8|]. split; [exact Q5|exact Q6].
+  Qed.
+
+  (* add: every entry of the parent's list afterwards is an entry it already had, or a cell made by this
+     very call.  add therefore creates no sharing between the parent and the circuit that was added
+     (or any other circuit): all components of the added circuit arrive as fresh copies. *)
+  Theorem sharing_add (e : env (K:=K)) (hw : hworld) id sub mode g c :
+    inv hw -> pget (hw_pool hw) id = Some c -> snd (hstep o e hw (OAdd id sub mode g)) = Ok tt ->
+    let h := hw_heap hw in
+    let hw' := fst (hstep o e hw (OAdd id sub mode g)) in
+    exists c', pget (hw_pool hw') id = Some c' /\
+               forall a, In a (rd_list (hw_heap hw') (hc_spec c')) -> In a (rd_list h (hc_spec c)) \/ h_next h <=p a.
+  Proof.
+    intros I Ec. cbv zeta. unfold hstep. cbn [hstep_in].
+    destruct (pget (hw_pool hw) sub) as [s|] eqn:Es; [|discriminate].
+    destruct (inv_clear hw I) as (I' & _).
+    pose proof (h_add_post_full o (hw_pool hw) (clear_log (hw_heap hw)) id c sub s I'
+                 (pget_In _ _ _ Ec) (pget_In _ _ _ Es) mode g) as (_ & Hent).
+    unfold hupd. rewrite Ec.
+    destruct (h_add o (clear_log (hw_heap hw)) c s mode g) as [h' [c'|y]]; cbn [fst snd] in *; [|discriminate].
+    intros _. cbn [hw_pool hw_heap]. exists c'. split; [apply pget_pset_same|exact Hent].
   Qed.
 End HeapMain.
